@@ -307,6 +307,25 @@ func (c *Chain) BuildTx(signer Acc, msgs ...sdk.Msg) []byte {
 	return bz
 }
 
+// BuildTxWith signs msgs with signer as the client chose to (gas limit, fee, sign mode); falls back to
+// BuildTx when the client cannot build that transaction.
+func (c *Chain) BuildTxWith(signer Acc, o TxOpts, msgs ...sdk.Msg) []byte {
+	ctx := c.DeliverCtx()
+	acc := c.App.AccountKeeper.GetAccount(ctx, signer.Addr)
+	var accNum, seq uint64
+	if acc != nil {
+		accNum, seq = acc.GetAccountNumber(), acc.GetSequence()
+	}
+	if o.Gas == 0 {
+		o.Gas = 20_000_000
+	}
+	bz, err := SignTx(c.W, signer, accNum, seq, o, msgs...)
+	if err != nil {
+		return c.BuildTx(signer, msgs...)
+	}
+	return bz
+}
+
 // Replay executes a concrete history on a fresh replica and returns its trace.
 func Replay(h ConcreteHistory) []BlockTrace { return ReplayAs(h, ReplicaOpts{}) }
 
